@@ -155,7 +155,8 @@ class Node:
                     and st is not None and st.height == tip.height and st.tip == tip.hash
                     and self.bp.state.height == tip.height and self.bp.caught_up
                     and self.bp.reorg_count is None and not self.bp.state_lock.locked()
-                    and not loop.jobs and not getattr(loop, 'timed_jobs', None)):
+                    and not loop.jobs and not getattr(loop, 'timed_jobs', None)
+                    and not getattr(loop, 'gjobs', None)):
                 stable += 1
                 if stable >= 2:
                     return
